@@ -104,7 +104,7 @@ def classify_c04(rep, tr, step):
     return 'unexplained'
 
 
-def run_prop(prop, tier, seed):
+def run_prop(prop, tier, seed, finish=True):
     rep = Report(prop, tier, seed, 'model_checking')
     rng = random.Random(seed + hash(prop) % 1000)
     traces = []
@@ -135,10 +135,10 @@ def run_prop(prop, tier, seed):
         rep.count(1, key=('rand', json.dumps(tr['_script'], sort_keys=True)))
         rep.sample({'kind': 'random scripted history', 'cfg': tr['_script']['cfg'], 'decisions': tr['_decisions'][:3]}, limit=3)
     tm['random_histories'] = time.time() - t0
-    return conclude(rep, prop, traces)
+    return conclude(rep, prop, traces, finish=finish)
 
 
-def conclude(rep, prop, traces):
+def conclude(rep, prop, traces, finish=True):
     t0 = time.time()
     verdicts, st, trn = P.validate(traces)
     rep.cov.setdefault('phase_wall_s', {})['trace_validation'] = round(time.time() - t0, 1)
@@ -171,7 +171,7 @@ def conclude(rep, prop, traces):
     rep.assumptions += ['TLC/SANY', 'projection in harness/drivers/dimwise_common.py (public attributes only)',
                         'numeric clauses (interpolation identity, hat exactness) evaluated by the harness with tolerance 1e-8/1e-10',
                         'lattice 2^12 per dimension; bounded histories']
-    return rep.finish()
+    return rep.finish() if finish else rep
 
 
 def replay_prop(prop, path, seed):
